@@ -530,6 +530,20 @@ class Eval:
         if op in ('AddWithOverflow', 'SubWithOverflow') and not sg:
             r, c = self.add(a, b) if op.startswith('Add') else self.sub(a, b)
             return Tup([r, BV([c])])
+        def cval(x):
+            return sum(bit << i for i, bit in enumerate(x.bits)) if all(bit in (0, 1) for bit in x.bits) else None
+        ca, cb = cval(a), cval(b)
+        if op in ('Div', 'Rem') and not sg and ca is not None and cb:
+            return const_bv(ca // cb if op == 'Div' else ca % cb, a.w)
+        if op in ('Mul', 'MulUnchecked', 'MulWithOverflow') and (ca is not None or cb is not None):
+            x, c = (b, ca) if ca is not None else (a, cb)        # multiplication by a constant: shift-and-add
+            acc = const_bv(0, a.w)
+            for k in range(a.w):
+                if (c >> k) & 1:
+                    acc, _ = self.add(acc, self.shl_const(x, k))
+            if op == 'MulWithOverflow':
+                return Tup([acc, unknown_bv(1)])
+            return acc
         if op in ('Div', 'Rem', 'Mul', 'MulUnchecked') and not sg and all(x in (0, 1) for x in b.bits) and sum(b.bits) == 1:
             k = b.bits.index(1)               # by a constant power of two
             if op == 'Div':
@@ -707,6 +721,8 @@ LAW_TEXT = {
     'V.movemask': 'movemask of lane predicates: every mask bit is 0 or the predicate of ONE lane, every lane reaches the mask, '
                   'and lanes appear in ascending bit order',
     'V.movemask_will_have_non_zero': 'movemask_will_have_non_zero(v) is true exactly when some lane predicate of v is true',
+    'S.has_zero_byte': 'has_zero_byte(x) (portable SWAR) is true whenever some byte of the word x is zero (no false negative; a false positive only costs a byte-wise rescan)',
+    'S.splat': 'every byte of the word splat(b) (portable SWAR) is b',
     'M.has_non_zero': 'has_non_zero(m) is true exactly when some lane of m is set',
     'M.count_ones': 'count_ones(m) is the NUMBER of set lanes of m',
     'M.and': 'and(m1, m2) has exactly the lanes set in both',
@@ -748,6 +764,47 @@ def check_config(facts):
     vecs, masks, defaults = find_impls(facts)
     info = {'vector_impls': sorted(vecs), 'mask_impls': sorted(masks), 'unknown_ops': [], 'transfer_functions_used': []}
     T = facts['types']
+    # ---- the portable SWAR primitives (arch::all::memchr)
+    for law, path in (('S.has_zero_byte', 'arch::all::memchr::has_zero_byte'), ('S.splat', 'arch::all::memchr::splat')):
+        for key, fn in facts['instances'].items():
+            if fn.get('path') != path or 'blocks' not in fn:
+                continue
+            ev = Eval(facts)
+            aty = fn['locals'][1]
+            aty = aty['ty'] if isinstance(aty, dict) else aty
+            rty = fn['locals'][0]
+            rty = rty['ty'] if isinstance(rty, dict) else rty
+            x = BV([ev.bdd.var(f'x[{i // 8}].{i % 8}') for i in range(ev.width(aty))])
+            try:
+                r = ev.call_fn(key, [x])
+            except Undecided as e:
+                out.append(LawResult(law, 'usize', key, fn.get('loc', ''), None, str(e)))
+                continue
+            if law == 'S.has_zero_byte':
+                e = 0
+                for l in ev.lanes(x, 8):
+                    e = ev.bdd.OR(e, ev.bdd.NOT(ev.orall(l)))
+                exp = [e]
+            else:
+                exp = [x.bits[k % 8] for k in range(ev.width(rty))]
+            ok, detail = None, 'result not a bit vector'
+            if isinstance(r, BV) and r.w == len(exp):
+                ok, detail = True, ''
+                for p_, (g, e) in enumerate(zip(r.bits, exp)):
+                    if g is None:
+                        ok, detail = None, 'some result bits unknown (operation without a transfer function): ' + ', '.join(ev.unknown_ops)
+                        break
+                    # has_zero_byte is used one way only: `false` lets the scan skip the word, `true` falls back to the
+                    # byte-by-byte scan -- a false positive costs time, not correctness, so only "zero byte => true" is a law
+                    d = ev.bdd.AND(e, ev.bdd.NOT(g)) if law == 'S.has_zero_byte' else ev.bdd.XOR(g, e)
+                    if d != 0:
+                        on = ev.bdd.witness(d)
+                        ok, detail = False, (f"bit {p_} of the result is {ev.bdd.value(g, on)} but the law requires {ev.bdd.value(e, on)} "
+                                             f"when exactly these bits of the argument are 1: {{{', '.join(on) or 'none'}}}")
+                        break
+            out.append(LawResult(law, 'usize', key, fn.get('loc', ''), ok, detail))
+            info['unknown_ops'] += [u for u in ev.unknown_ops if u not in info['unknown_ops']]
+            info['transfer_functions_used'] = sorted(set(info['transfer_functions_used']) | ev.ops_seen)
     for vt in sorted(vecs):
         meths = dict(vecs[vt])
         for name, keys in defaults.items():          # provided trait methods instantiated for this vector type
